@@ -54,7 +54,7 @@ fn schema_text(which: usize) -> &'static str {
 const QUERIES: [&str; 3] = [
     r#"{ N { __typename @output value @output @filter(op: ">=", value: ["$lo"]) divs @fold @transform(op: "count") @output @filter(op: ">=", value: ["$c"]) { name @output } } }"#,
     r#"{ N(max: 4) { name @filter(op: "has_substring", value: ["$s"]) @output next @optional { v: value @output } } }"#,
-    r#"{ N { value @tag(name: "t") @output next @recurse(depth: 2) { w: value @output @filter(op: ">=", value: ["%t"]) } } }"#,
+    r#"{ N { value @tag(name: "t") @output next @recurse(depth: 2) { w: value @output @filter(op: ">=", value: ["%t"]) } divs @fold @transform(op: "count") @output(name: "nd") @filter(op: ">", value: ["$z"]) { dn: name @output @filter(op: "!=", value: ["$s"]) } } }"#,
 ];
 
 fn args_for(q: usize) -> BTreeMap<Arc<str>, FieldValue> {
@@ -67,7 +67,10 @@ fn args_for(q: usize) -> BTreeMap<Arc<str>, FieldValue> {
         1 => {
             m.insert("s".into(), FieldValue::String("n".into()));
         }
-        _ => {}
+        _ => {
+            m.insert("z".into(), FieldValue::Int64(0));
+            m.insert("s".into(), FieldValue::String("zero".into()));
+        }
     }
     m
 }
@@ -204,30 +207,40 @@ fn main() {
     }
     let round1: Vec<(usize, usize, String)> = hs.into_iter().map(|h| h.join().unwrap()).collect();
 
-    // Round 2: one shared Arc<Schema> and one shared Arc<IndexedQuery>.
+    // Round 2: one shared Arc<Schema> and shared Arc<IndexedQuery>s that nobody has executed yet.
+    // The very first thing every thread does after the barrier is to execute the shared compiled
+    // queries, so that any lazily initialised state *inside* a compiled query is raced cold.
     let schema = Arc::new(Schema::parse(SCHEMA).unwrap());
-    let shared_qi = variant % QUERIES.len();
-    let shared_q: Arc<IndexedQuery> = parse(&schema, QUERIES[shared_qi]).unwrap();
+    // several compiled-query objects, each one a separate cold window
+    let shared: Vec<(usize, Arc<IndexedQuery>)> = (0..8)
+        .map(|k| {
+            let qi = (variant + k) % QUERIES.len();
+            (qi, parse(&schema, QUERIES[qi]).unwrap())
+        })
+        .collect();
+    let n_threads = 3;
     let barrier = Arc::new(Barrier::new(n_threads));
     let mut hs = vec![];
     for t in 0..n_threads {
         let b = barrier.clone();
         let log = log.clone();
         let schema = schema.clone();
-        let shared_q = shared_q.clone();
+        let shared = shared.clone();
         hs.push(std::thread::spawn(move || {
             b.wait();
+            let mut r_shared = String::new();
+            for (qi, q) in &shared {
+                r_shared.push_str(&execute(q.clone(), *qi, &log, b'0' + t as u8));
+                r_shared.push('|');
+            }
             log.lock().unwrap().push(b'0' + t as u8);
             // compile a different query over the shared schema
             let qi = (t + 1 + variant) % QUERIES.len();
             let own = parse(schema.as_ref(), QUERIES[qi]).unwrap();
             log.lock().unwrap().push(b'0' + t as u8);
-            // execute the shared compiled query with an own adapter, and the own one
-            let r_shared = execute(shared_q.clone(), shared_qi, &log, b'0' + t as u8);
-            log.lock().unwrap().push(b'0' + t as u8);
             let r_own = execute(own.clone(), qi, &log, b'0' + t as u8);
             let same_ir = format!("{:?}", own.ir_query);
-            drop(shared_q);
+            drop(shared);
             drop(schema);
             (qi, r_shared, r_own, same_ir)
         }));
@@ -243,7 +256,11 @@ fn main() {
             ok = false;
         }
     }
-    let seq_shared = execute(shared_q.clone(), shared_qi, &seq_log, b'.');
+    let mut seq_shared = String::new();
+    for (qi, q) in &shared {
+        seq_shared.push_str(&execute(q.clone(), *qi, &seq_log, b'.'));
+        seq_shared.push('|');
+    }
     for (qi, r_shared, r_own, ir) in &round2 {
         let own = parse(schema.as_ref(), QUERIES[*qi]).unwrap();
         if r_shared != &seq_shared || &execute(own.clone(), *qi, &seq_log, b'.') != r_own || &format!("{:?}", own.ir_query) != ir {
